@@ -2,7 +2,9 @@
    Property theorems only; proofs in theories/Limits_proofs.v.
    serve_tile ly cached q = (answer, effects) of one request q to a tile service (TMS, /tiles, KML, WMTS KVP / REST,
    GetTile and GetFeatureInfo) for layer ly when the cache holds the tiles `cached`;
-   serve_map mp ly cached q = the same for a WMS GetMap (plain or tiled=true) with max_output_pixels mp.
+   serve_map mp se ly cached q = the same for a WMS GetMap (plain or tiled=true) with max_output_pixels mp and the
+   extent se configured for the request SRS (services.wms.bbox_srs; None: no extent).
+   offered_format ly = the one tile format of the layer (png for a layer on a `format: mixed` cache).
    effects = cache loads / probes / stores and upstream GetMap / GetFeatureInfo requests. *)
 From Coq Require Import ZArith List Bool.
 Import ListNotations.
@@ -17,7 +19,7 @@ Proof. exact serve_tile_refused_free. Qed.
 
 (* The same for map requests (pixel limit, tile limit, WMS-C restrictions, invalid bbox). *)
 Theorem refused_map_request_no_effects :
-  forall mp ly cached q e, fst (serve_map mp ly cached q) = Err e -> snd (serve_map mp ly cached q) = [].
+  forall mp se ly cached q e, fst (serve_map mp se ly cached q) = Err e -> snd (serve_map mp se ly cached q) = [].
 Proof. exact serve_map_refused_free. Qed.
 
 (* A tile request whose level, column or row lies outside the advertised matrix - negative, just outside, of any
@@ -33,8 +35,16 @@ Proof. exact serve_tile_invalid_address. Qed.
    without effects. *)
 Theorem invalid_format_no_effects :
   forall ly cached q f,
-    is_fi (rsvc q) = false -> rfmt q = Some f -> f <> lfmt ly -> exists e, serve_tile ly cached q = (Err e, []).
+    is_fi (rsvc q) = false -> rfmt q = Some f -> f <> offered_format ly -> exists e, serve_tile ly cached q = (Err e, []).
 Proof. exact serve_tile_invalid_format. Qed.
+
+(* In particular a layer on a `format: mixed` cache offers png only: jpeg, gif, "mixed", anything else is refused
+   without effects although the cache stores png and jpeg tiles. *)
+Theorem invalid_format_mixed_layer_no_effects :
+  forall ly cached q f,
+    lmixed ly = true -> is_fi (rsvc q) = false -> rfmt q = Some f -> f <> fmt_png ->
+    exists e, serve_tile ly cached q = (Err e, []).
+Proof. exact serve_tile_invalid_format_mixed. Qed.
 
 (* Every tile request - GetTile and GetFeatureInfo - with a dimension value that is neither offered nor "default" /
    empty (dims_of: WMTS passes the request dimensions, TMS / KML never carry any) is refused without effects. *)
@@ -47,21 +57,23 @@ Proof. exact serve_tile_invalid_dimension. Qed.
    compared with the layer format (behaviour pinned by the test-suite of mapproxy, documented, not a finding);
    such a request is answered and asks the upstream server. *)
 Theorem invalid_format_featureinfo_refuted :
-  exists ly cached q f, is_fi (rsvc q) = true /\ rfmt q = Some f /\ f <> lfmt ly /\
+  exists ly cached q f, is_fi (rsvc q) = true /\ rfmt q = Some f /\ f <> offered_format ly /\
     fst (serve_tile ly cached q) = Ok /\ snd (serve_tile ly cached q) <> [].
 Proof. exact featureinfo_format_unchecked_witness. Qed.
 
-(* A map request for more pixels than max_output_pixels is refused without effects. *)
+(* A map request for more pixels than max_output_pixels is refused without effects - the limit applies to the
+   requested size, whatever part of the request lies inside the SRS extent or the layer extent. *)
 Theorem pixel_limit_no_effects :
-  forall ly cached q m, 0 < m < mw q * mh q -> serve_map (Some m) ly cached q = (Err TooLarge, []).
+  forall se ly cached q m, 0 < m < mw q * mh q -> serve_map (Some m) se ly cached q = (Err TooLarge, []).
 Proof. exact serve_map_pixel_limit. Qed.
 
-(* A map request whose tile grid (of the part inside the layer extent: effective_query) has max_tile_limit tiles or
-   more is refused without effects (num_tiles >= max_tile_limit, as in the code). *)
+(* A map request whose tile grid (of the part inside the SRS extent: srs_limited, and inside the layer extent:
+   effective_query) has max_tile_limit tiles or more is refused without effects (num_tiles >= max_tile_limit). *)
 Theorem tile_limit_no_effects :
-  forall mp ly cached q q' n m,
-    effective_query ly q = Some q' -> tile_count ly q' = Some n -> lmax_tiles ly = Some m -> 0 < m <= n ->
-    exists e, serve_map mp ly cached q = (Err e, []).
+  forall mp se ly cached q q1 q' n m,
+    srs_limited se q = Some q1 -> effective_query ly q1 = Some q' -> tile_count ly q' = Some n ->
+    lmax_tiles ly = Some m -> 0 < m <= n ->
+    exists e, serve_map mp se ly cached q = (Err e, []).
 Proof. exact serve_map_tile_limit. Qed.
 
 (* The boundary is exact on every grid and level: with an offered format and acceptable dimension values, for every
@@ -74,7 +86,7 @@ Theorem boundary_exact :
     valid_level (lg ly) (internal_level ly (svc_profiles s) z) = true ->
     let nx := fst (grid_size (lg ly) (internal_level ly (svc_profiles s) z)) in
     let ny := snd (grid_size (lg ly) (internal_level ly (svc_profiles s) z)) in
-    let ask := fun x y => serve_tile ly cached (mkReq s (Some x) (Some y) (Some z) (Some (lfmt ly)) o d true true io i j) in
+    let ask := fun x y => serve_tile ly cached (mkReq s (Some x) (Some y) (Some z) (Some (offered_format ly)) o d true true io i j) in
     0 <= x < nx -> 0 <= y < ny ->
     fst (ask x (ny - 1)) = Ok /\ fst (ask (nx - 1) y) = Ok /\ fst (ask x 0) = Ok /\ fst (ask 0 y) = Ok /\
     (exists e, ask x ny = (Err e, [])) /\ (exists e, ask nx y = (Err e, [])) /\
@@ -89,6 +101,6 @@ Theorem effects_inside_grid :
 Proof. exact serve_tile_inside. Qed.
 
 Theorem effects_inside_grid_map :
-  forall mp ly cached q e,
-    layer_wf ly -> ress (lg ly) <> [] -> In e (snd (serve_map mp ly cached q)) -> effect_inside ly e.
+  forall mp se ly cached q e,
+    layer_wf ly -> ress (lg ly) <> [] -> In e (snd (serve_map mp se ly cached q)) -> effect_inside ly e.
 Proof. exact serve_map_inside. Qed.
